@@ -29,7 +29,8 @@ func init() { registry["C18"] = checkC18 }
 // "0" never allocates, "c" allocates a number of times bounded by a constant
 // independent of its arguments' sizes.
 var allocTable = map[string]string{
-	"strings.IndexByte": "0", "strings.CutPrefix": "0", "strings.HasPrefix": "0", "strings.TrimSuffix": "0", "strings.HasSuffix": "0",
+	"strings.IndexByte": "0", "strings.CutPrefix": "0", "strings.Cut": "0", "strings.CutSuffix": "0", "strings.Index": "0", "strings.IndexRune": "0",
+	"strings.Contains": "0", "strings.ContainsRune": "0", "strings.LastIndexByte": "0", "strings.TrimPrefix": "0", "strings.HasPrefix": "0", "strings.TrimSuffix": "0", "strings.HasSuffix": "0",
 	"slices.BinarySearch": "0", "(*sync.RWMutex).RLock": "0", "(*sync.RWMutex).RUnlock": "0",
 	"(http.Header).Add": "c", "(http.Header).Set": "c", "maps.Copy": "c",
 }
